@@ -36,8 +36,23 @@ pub fn reset(w: &Rc<World>) {
             c.lazy_inits[i].set(0);
         }
     });
-    CUR_WORLD.with(|cw| *cw.borrow_mut() = Some(w.clone()));
+    let old = CUR_WORLD.with(|cw| cw.borrow_mut().replace(w.clone()));
+    // a world left behind by a failed iteration may own wakers whose destructor talks to an execution that
+    // no longer exists
+    std::mem::forget(old);
     PER_THREAD.with(|p| p.borrow_mut().clear());
+}
+
+/// the iteration completed: nothing that talks to loom is alive any more, the world can be dropped
+pub fn iteration_ok() {
+    let old = CUR_WORLD.with(|cw| cw.borrow_mut().take());
+    drop(old);
+}
+
+/// the model run ended (possibly with a failure): what the failed iteration left behind is leaked
+pub fn abandon() {
+    let old = CUR_WORLD.with(|cw| cw.borrow_mut().take());
+    std::mem::forget(old);
 }
 
 pub struct TlsVal {
